@@ -32,6 +32,7 @@ def parseCfg (j : J) : Except String Cfg := do
     | .null => pure none
     | x => do pure (some (← x.toNat))
   pure { commit := commit, guarded := ← (← j.get "guarded").toBool, withBlock := ← (← j.get "with_block").toBool,
+         bodyUnlink := ← (← j.get "body_unlink").toBool, closeInBody := ← (← j.get "close_in_body").toBool,
          dir := [0], name := 1, t := 2, u := 3,
          chunks := ← (← j.get "chunks").toListOf (J.toListOf J.toNat), zipMember := zm }
 
